@@ -352,6 +352,8 @@ type Fr<E> = <E as Pairing>::ScalarField;
 type A1<E> = <E as Pairing>::G1Affine;
 type A2<E> = <E as Pairing>::G2Affine;
 type Tf<E> = <E as Pairing>::TargetField;
+type G1p<E> = <E as Pairing>::G1;
+type G2p<E> = <E as Pairing>::G2;
 
 fn pt1<E: Pairing>(p: &A1<E>) -> String {
     match p.xy() {
@@ -366,10 +368,10 @@ fn pt2<E: Pairing>(q: &A2<E>) -> String {
     }
 }
 fn g1<E: Pairing>(s: &Fr<E>) -> A1<E> {
-    (E::G1::generator() * *s).into_affine()
+    (G1p::<E>::generator() * *s).into_affine()
 }
 fn g2<E: Pairing>(s: &Fr<E>) -> A2<E> {
-    (E::G2::generator() * *s).into_affine()
+    (G2p::<E>::generator() * *s).into_affine()
 }
 fn rand_fr<E: Pairing>(rng: &mut Rng) -> Fr<E> {
     let n = (Fr::<E>::MODULUS_BIT_SIZE as usize + 7) / 8 + 8;
@@ -458,8 +460,8 @@ fn run<Fm: Fam>(o: &mut Out, id: &str, rng: &mut Rng, bud: &Budget) {
     type E<Fm> = <Fm as Fam>::E;
     let deg = Tf::<E<Fm>>::extension_degree();
     o.line(&format!("cfg {} {}", id, Fm::header()), &format!("{:x}", deg));
-    let gen1 = E::<Fm>::G1::generator().into_affine();
-    let gen2 = E::<Fm>::G2::generator().into_affine();
+    let gen1 = G1p::<E<Fm>>::generator().into_affine();
+    let gen2 = G2p::<E<Fm>>::generator().into_affine();
     let o1 = A1::<E<Fm>>::zero();
     let o2 = A2::<E<Fm>>::zero();
 
@@ -614,18 +616,18 @@ fn run<Fm: Fam>(o: &mut Out, id: &str, rng: &mut Rng, bud: &Budget) {
             ab.push((any_fr::<E<Fm>>(rng), any_fr::<E<Fm>>(rng)));
         }
         for (a, b) in &ab {
-            let pa = (E::<Fm>::G1::from(p0) * *a).into_affine();
-            let qb = (E::<Fm>::G2::from(q0) * *b).into_affine();
+            let pa = (G1p::<E<Fm>>::from(p0) * *a).into_affine();
+            let qb = (G2p::<E<Fm>>::from(q0) * *b).into_affine();
             o.line(&format!("t_bilin {} {} {} {}", id, fe(a), fe(b), e0), &pair_s::<E<Fm>>(&pa, &qb));
         }
         // additivity in each argument (with P' = P, P' = -P, P' = O among the cases)
         for k in 0..6 {
             let p = g1::<E<Fm>>(&nz_fr::<E<Fm>>(rng));
             let q = g2::<E<Fm>>(&nz_fr::<E<Fm>>(rng));
-            let p2 = match k { 0 => p, 1 => (-E::<Fm>::G1::from(p)).into_affine(), 2 => o1, _ => g1::<E<Fm>>(&any_fr::<E<Fm>>(rng)) };
-            let q2 = match k { 0 => q, 1 => (-E::<Fm>::G2::from(q)).into_affine(), 2 => o2, _ => g2::<E<Fm>>(&any_fr::<E<Fm>>(rng)) };
-            let psum = (E::<Fm>::G1::from(p) + E::<Fm>::G1::from(p2)).into_affine();
-            let qsum = (E::<Fm>::G2::from(q) + E::<Fm>::G2::from(q2)).into_affine();
+            let p2 = match k { 0 => p, 1 => (-G1p::<E<Fm>>::from(p)).into_affine(), 2 => o1, _ => g1::<E<Fm>>(&any_fr::<E<Fm>>(rng)) };
+            let q2 = match k { 0 => q, 1 => (-G2p::<E<Fm>>::from(q)).into_affine(), 2 => o2, _ => g2::<E<Fm>>(&any_fr::<E<Fm>>(rng)) };
+            let psum = (G1p::<E<Fm>>::from(p) + G1p::<E<Fm>>::from(p2)).into_affine();
+            let qsum = (G2p::<E<Fm>>::from(q) + G2p::<E<Fm>>::from(q2)).into_affine();
             o.line(
                 &format!("t_addl {} {} {}", id, pair_s::<E<Fm>>(&p, &q), pair_s::<E<Fm>>(&p2, &q)),
                 &pair_s::<E<Fm>>(&psum, &q),
